@@ -402,6 +402,7 @@ theorem rowsOut_append (a b : List Ev) : rowsOut (a ++ b) = rowsOut a ++ rowsOut
     | write p d => cases d <;> simp [rowsOut, ih]
     | drain => simp [rowsOut, ih]
     | session_reset => simp [rowsOut, ih]
+    | reset_seq => simp [rowsOut, ih]
 
 theorem rowsOut_fetchOut (c : Connection S) (ps : List Bytes) (a l w fl : Nat) : rowsOut (fetchOut c ps a l w fl) = ps := by
   unfold fetchOut
@@ -836,6 +837,7 @@ def evShape : List Ev → List Bool
   | .write _ true :: r => false :: true :: evShape r
   | .drain :: r => true :: evShape r
   | .session_reset :: r => evShape r
+  | .reset_seq :: r => evShape r
 
 def opShape : List Mimic.Conn.Op → List Bool
   | [] => []
@@ -851,6 +853,7 @@ theorem evShape_append (a b : List Ev) : evShape (a ++ b) = evShape a ++ evShape
     | write p d => cases d <;> simp [evShape, ih]
     | drain => simp [evShape, ih]
     | session_reset => simp [evShape, ih]
+    | reset_seq => simp [evShape, ih]
 
 theorem opShape_append (a b : List Mimic.Conn.Op) : opShape (a ++ b) = opShape a ++ opShape b := by
   induction a with
@@ -987,5 +990,117 @@ theorem prepare_script_is_code (E : Env S) (cp : S → Nat) (pc : Nat → Bytes)
   by_cases h0 : cp sql = 0
   · simp [h0, evShape, opShape]
   · cases hdep : deprecate_eof c <;> simp [h0, hdep, evShape, opShape, evShape_append, evShape_replicate_buffered, List.map_replicate]
+
+/-! ### one iteration of the command loop (`command_phase`, kills excluded) -/
+
+section step
+variable (E : Env S) (cp : S → Nat) (pc : Nat → Bytes) (coldef : Nat → Nat → Bytes)
+  (parse : Connection S → Bytes → Option (ComStmtExecute S)) (app : S → Option (ResultSet S))
+  (other : Nat → Connection S → Bytes → Except (Connection S) (Connection S)) (err : Connection S → Bytes)
+
+/-- **What one iteration adds to the wire, for every packet**: whatever the dispatched handler wrote; then, *iff* it raised (a
+    malformed packet, an unknown statement, a failing application or row source, an unsupported command byte, an empty
+    packet), exactly one ERR packet written with a drain; then the sequence reset — and nothing else.  The executing flag is
+    cleared whatever happened; the loop ends only on COM_QUIT. -/
+theorem command_step_spec (c : Connection S) (data : Bytes) :
+    let c1 : Connection S := { c with _executing := true }
+    match data with
+    | [] =>
+      command_step E cp pc coldef parse app other err c data
+        = ({ c with _executing := false, out := c.out ++ [Ev.write (err { c with _executing := false }) true, Ev.reset_seq] }, true)
+    | command :: rest =>
+      match dispatch E cp pc coldef parse app other c1 command.toNat rest with
+      | .ok (some s) =>
+        command_step E cp pc coldef parse app other err c data = ({ s with _executing := false, out := s.out ++ [Ev.reset_seq] }, true)
+      | .ok none =>
+        command_step E cp pc coldef parse app other err c data = ({ c with _executing := false, out := c.out ++ [Ev.reset_seq] }, false)
+      | .error s =>
+        command_step E cp pc coldef parse app other err c data
+          = ({ s with _executing := false, out := s.out ++ [Ev.write (err { s with _executing := false }) true, Ev.reset_seq] }, true) := by
+  intro c1
+  cases data with
+  | nil =>
+    dsimp only
+    simp only [command_step, List.append_assoc, List.cons_append, List.nil_append]
+  | cons command rest =>
+    dsimp only
+    cases h : dispatch E cp pc coldef parse app other c1 command.toNat rest with
+    | error s =>
+      have h' : dispatch E cp pc coldef parse app other { c with _executing := true } command.toNat rest = .error s := h
+      simp only [command_step, h', List.append_assoc, List.cons_append, List.nil_append]
+    | ok o =>
+      cases o with
+      | none =>
+        have h' : dispatch E cp pc coldef parse app other { c with _executing := true } command.toNat rest = .ok none := h
+        simp only [command_step, h']
+      | some s =>
+        have h' : dispatch E cp pc coldef parse app other { c with _executing := true } command.toNat rest = .ok (some s) := h
+        simp only [command_step, h']
+
+theorem map_some_ne_none {ε α : Type} (x : Except ε α) : x.map some ≠ .ok none := by
+  cases x <;> simp [Except.map]
+
+/-- the loop ends (`return`) only on COM_QUIT, whatever the handlers do -/
+theorem dispatch_quit_iff (c : Connection S) (command : Nat) (rest : Bytes) :
+    dispatch E cp pc coldef parse app other c command rest = .ok none ↔ command = 1 := by
+  constructor
+  · intro h
+    by_cases hne : command = 1
+    · exact hne
+    · exfalso
+      have h1 : (command == 1) = false := by simpa using hne
+      unfold dispatch at h
+      simp only [h1, Bool.false_eq_true, if_false] at h
+      by_cases c3 : (command == 3) = true
+      · simp only [c3, if_true, Bool.false_eq_true, if_false, ↓reduceIte] at h; exact absurd h (map_some_ne_none _)
+      simp only [c3, if_false, Bool.false_eq_true, ↓reduceIte] at h
+      by_cases c22 : (command == 22) = true
+      · simp only [c22, if_true, Bool.false_eq_true, if_false, ↓reduceIte] at h; exact absurd h (map_some_ne_none _)
+      simp only [c22, if_false, Bool.false_eq_true, ↓reduceIte] at h
+      by_cases c24 : (command == 24) = true
+      · simp only [c24, if_true, Bool.false_eq_true, if_false, ↓reduceIte] at h; exact absurd h (map_some_ne_none _)
+      simp only [c24, if_false, Bool.false_eq_true, ↓reduceIte] at h
+      by_cases c23 : (command == 23) = true
+      · simp only [c23, if_true, Bool.false_eq_true, if_false, ↓reduceIte] at h; exact absurd h (map_some_ne_none _)
+      simp only [c23, if_false, Bool.false_eq_true, ↓reduceIte] at h
+      by_cases c28 : (command == 28) = true
+      · simp only [c28, if_true, Bool.false_eq_true, if_false, ↓reduceIte] at h; exact absurd h (map_some_ne_none _)
+      simp only [c28, if_false, Bool.false_eq_true, ↓reduceIte] at h
+      by_cases c26 : (command == 26) = true
+      · simp only [c26, if_true, Bool.false_eq_true, if_false, ↓reduceIte] at h; exact absurd h (map_some_ne_none _)
+      simp only [c26, if_false, Bool.false_eq_true, ↓reduceIte] at h
+      by_cases c25 : (command == 25) = true
+      · simp only [c25, if_true, Bool.false_eq_true, if_false, ↓reduceIte] at h; exact absurd h (map_some_ne_none _)
+      simp only [c25, if_false, Bool.false_eq_true, ↓reduceIte] at h
+      by_cases c14 : (command == 14) = true
+      · simp only [c14, if_true, Bool.false_eq_true, if_false, ↓reduceIte] at h; exact absurd h (map_some_ne_none _)
+      simp only [c14, if_false, Bool.false_eq_true, ↓reduceIte] at h
+      by_cases c17 : (command == 17) = true
+      · simp only [c17, if_true, Bool.false_eq_true, if_false, ↓reduceIte] at h; exact absurd h (map_some_ne_none _)
+      simp only [c17, if_false, Bool.false_eq_true, ↓reduceIte] at h
+      by_cases c31 : (command == 31) = true
+      · simp only [c31, if_true, Bool.false_eq_true, if_false, ↓reduceIte] at h; exact absurd h (map_some_ne_none _)
+      simp only [c31, if_false, Bool.false_eq_true, ↓reduceIte] at h
+      by_cases c13 : (command == 13) = true
+      · simp only [c13, if_true, Bool.false_eq_true, if_false, ↓reduceIte] at h; exact absurd h (map_some_ne_none _)
+      simp only [c13, if_false, Bool.false_eq_true, ↓reduceIte] at h
+      by_cases c2 : (command == 2) = true
+      · simp only [c2, if_true, Bool.false_eq_true, if_false, ↓reduceIte] at h; exact absurd h (map_some_ne_none _)
+      simp only [c2, if_false, Bool.false_eq_true, ↓reduceIte] at h
+      by_cases c4 : (command == 4) = true
+      · simp only [c4, if_true, Bool.false_eq_true, if_false, ↓reduceIte] at h; exact absurd h (map_some_ne_none _)
+      simp only [c4, if_false, Bool.false_eq_true, ↓reduceIte] at h
+      cases h
+  · intro h; subst h; simp [dispatch]
+
+/-- an unsupported command byte raises in the dispatch (and is therefore answered by exactly one ERR) -/
+theorem dispatch_unsupported (c : Connection S) (command : Nat) (rest : Bytes) (h : command ∉ dispatched) :
+    dispatch E cp pc coldef parse app other c command rest = .error c := by
+  unfold dispatch
+  simp only [dispatched, List.mem_cons, List.mem_nil_iff, or_false, not_or] at h
+  obtain ⟨h1, h2, h3, h4, h5, h6, h7, h8, h9, h10, h11, h12, h13, h14⟩ := h
+  simp [h1, h2, h3, h4, h5, h6, h7, h8, h9, h10, h11, h12, h13, h14]
+
+end step
 
 end MimicProofs.HandlersCode
